@@ -270,6 +270,12 @@ Definition rstep_script (sc : scenario) (r : run) : list run :=
           r_log := {| o_res := 0; o_ntx := 0; o_dials := Z.of_nat (r_dial r) |} :: r_log r |}]
     | [] =>
       if r_final r then []
+      else if ccl _ _ s then
+        (* the scenario has closed the client already: it must be clean without a further Close *)
+        [{| r_st := s; r_orph := r_orph r; r_steps := []; r_neg := false;
+            r_trig := TNone; r_act := ANone; r_parked := false; r_wheld := false; r_rheld := false;
+            r_dial := r_dial r; r_req := r_req r; r_srv := r_srv r; r_pend := r_pend r; r_final := true;
+            r_dialok := r_dialok r; r_log := r_log r |}]
       else
         [{| r_st := set_closer _ _ s C0 (ccl _ _ s); r_orph := r_orph r; r_steps := []; r_neg := false;
             r_trig := TNone; r_act := ANone; r_parked := false; r_wheld := false; r_rheld := false;
